@@ -34,14 +34,15 @@ CLAIMED = {
             "Awaits complete (poll returns Ready); Vec::retain / slice iteration follow their std contracts; report writers' contents, scheduling and >2x2 sequences are outside.",
             "DESIGN.md §2 C36"),
     "C09": ("MIR-to-SMT symbolic execution (z3) of DbIndex::clear, every index type's clear/remove, EmmyLuaAnalysis::reindex and LuaCompilation::clear_index (frame conditions); native replay by comparing a history + reindex with a fresh analysis",
-            "Claimed for the frame conditions only: on every path every index field receives its own clear(); every field an index's remove(file) mutates and that the index ever enumerates is mutated on "
-            "every path of its clear(); reindex clears before it rebuilds from the VFS's full file list.",
+            "Claimed for the frame conditions only: on every path every index field receives its own clear(); every field an index's remove(file) mutates is mutated on "
+            "every path of its clear() (exempt: never-enumerated tables keyed by file-id+position ids); reindex clears before it rebuilds from the VFS's full file list (local and remote).",
             "What each index does inside a touched field and the analyzers that repopulate the index are outside; observable equality with a fresh analysis is only sampled by the replay histories.",
             "DESIGN.md §2 C09/C10"),
-    "C10": ("MIR-to-SMT symbolic execution (z3) of DbIndex::remove / remove_index, EmmyLuaAnalysis::remove_file_by_uri and LuaCompilation::remove_index (frame conditions); native replay by comparing a removal history with a fresh analysis",
-            "Claimed for the frame conditions only: on every path every index field is told to remove exactly the removed file's id; remove_index visits every id; remove_file_by_uri removes from the VFS and "
-            "requests index removal for that same id.",
-            "What each index's remove(file) leaves inside its maps, memory release and LSP-level results are outside.",
+    "C10": ("MIR-to-SMT symbolic execution (z3/cvc5) of DbIndex::remove / remove_index, every index type's remove with its closures, EmmyLuaAnalysis::remove_file_by_uri / update_file_by_uri and LuaCompilation::remove_index; native replay by comparing a removal history with a fresh analysis",
+            "Frame conditions and pruning predicates: on every path every index field is told to remove exactly the removed file's id; remove_index visits every id; remove_file_by_uri / update_file_by_uri "
+            "request index removal for the id the VFS returned; every file-fed table is reachable for mutation from remove(file); every file-id comparing closure in a remove is proved (z3, all u32 ids) to keep "
+            "exactly the items of other files, and every table shared between files is filtered by such a predicate.",
+            "Which entries of a per-file table remove(file) deletes, memory release and LSP-level results are outside.",
             "DESIGN.md §2 C09/C10"),
     "C19": ("MIR-to-SMT symbolic execution (z3/cvc5) of the three suppression-comment analyzers composed with the real DiagnosticAction::is_match over a symbolic line table; native replay through VirtualWorkspace",
             "The real MIR of analyze_diagnostic_disable{,_line,_next_line}, DiagnosticAction::is_match and is_file_diagnostic_code_disabled is executed symbolically; line starts, comment/block/"
@@ -54,10 +55,11 @@ CLAIMED = {
             "initialization, cancel in flight).",
             "Awaits complete; spawned futures run; lsp_server::Request::extract and channel send follow their contracts. Handler panics, the initialize handshake and scheduling are outside.",
             "DESIGN.md §2 C24"),
-    "C31": ("MIR-to-SMT symbolic execution (z3/cvc5) of configuration path pre-processing with an SMT model of UTF-8 strings: every str slice / split / unwrap / regex-capture index is a panic obligation; native replay through load_configs / pre_process_emmyrc under catch_unwind",
+    "C31": ("MIR-to-SMT symbolic execution (z3/cvc5) of configuration path pre-processing (SMT model of UTF-8 strings) and of key flattening (kind model of serde_json::Value): every str slice / split / unwrap / regex-capture index is a panic obligation; native replay through load_configs / pre_process_emmyrc under catch_unwind",
             "For every valid UTF-8 string (symbolic length and bytes) and every outcome of the abstracted callees, z3 proves that no slice start is past the end or inside a character, no capture "
-            "group index can be absent (pattern analysed from the MIR constant), and no unwrap is reached on None — on all paths of pre_process_path, pre_process_workspace_path_item and the two regex closures.",
-            "std string API contracts; regex group participation by syntactic analysis of the pattern; JSON flattening, the Lua loader and file I/O are outside (a native panic battery covers them only as replay).",
+            "group index can be absent (pattern analysed from the MIR constant), and no unwrap is reached on None — on all paths of pre_process_path, pre_process_workspace_path_item and the two regex closures; "
+            "and that no index / expect / serde_json indexing in to_emmyrc_json and flatten_object can panic for keys of 1..3 (thorough 1..5) segments and values of every JSON kind.",
+            "std string API and serde_json Value contracts (stated in props/c31flat.py); regex group participation by syntactic analysis of the pattern; the Lua loader and file I/O are outside (a native panic battery covers them only as replay).",
             "DESIGN.md §2 C31"),
     "C01": ("Kani/CBMC on Reader per byte-width shape + MIR-to-SMT symbolic execution of LuaGreenNodeBuilder with exact Vec models over all operation patterns and symbolic kinds; native replay by parsing",
             "Kernel-scope claim: (i) the reader covers the whole text (CBMC: ranges, tiling, end-of-input <=> all consumed, progress) for every text shape; (ii) the green builder keeps every pushed "
